@@ -6,6 +6,7 @@ import time
 from hypothesis import strategies as st
 
 from vlib import mgen
+from vlib.simnet import Stall
 from vlib.common import Result, RunContext, Violation, conclude, derive_seed, hyp_run, run_shards
 from vlib.mgen import BURST, CLOSE, CONNECT, DISCONNECT, OPEN, PUB, READY, SETNAME, STEP, SUB, Profile
 
@@ -172,7 +173,11 @@ def e2e_case(case: dict, res: Result = None):
             for j, r in enumerate(cl):
                 got = []
                 while True:
-                    m = r.read_message(timeout=0)
+                    try:
+                        m = r.read_message(timeout=0)
+                    except Stall as e:
+                        raise Violation("e2e/short-frame", f"client {j} (id {r.module_id}) would block for ever in read_message(): the "
+                                        f"manager delivered fewer bytes than the frame header announces ({e})", case)
                     if m is None:
                         # timeout 0 returns None for a filtered frame as well: look whether bytes are left
                         if r._sock.rx:
